@@ -16,6 +16,7 @@ func init() {
 		Explain: "Decides that the lifecycle state only moves forward under every interleaving of Join/Leave/Shutdown, by a rely/guarantee argument over shape facts: Serf.state is written only by Create (initialisation), Leave and Shutdown, always with stateLock held; every store of a constant state K is, within the same critical section, guarded against every state greater than K (so each store is >= the value it replaces; since all writers only raise, values observed earlier stay lower bounds); Shutdown returns nil before any effect when already shut down, Leave returns nil before any effect when already left, and Join's memberlist join is behind State()==alive read at its entry.",
 		Run:     runC34,
 		Mutants: []Mutant{
+			{Name: "leave-queues-behind-join", File: "serf/serf.go", Func: "func (s *Serf) Leave(", Old: "\t// Check the current state\n\ts.stateLock.Lock()\n", New: "\ts.joinLock.Lock()\n\ts.joinLock.Unlock()\n\t// Check the current state\n\ts.stateLock.Lock()\n", Expect: "R3|Leave:publishes-leaving-first"},
 			{Name: "left-after-shutdown", File: "serf/serf.go", Func: "func (s *Serf) Leave(", Old: "\tif s.state != SerfShutdown {\n\t\ts.state = SerfLeft\n\t}\n", New: "\ts.state = SerfLeft\n", Expect: "R2"},
 			{Name: "leave-from-left-restarts", File: "serf/serf.go", Func: "func (s *Serf) Leave(", Old: "\tcase SerfLeft:\n\t\ts.stateLock.Unlock()\n\t\treturn nil\n", New: "", Expect: "R"},
 			{Name: "state-written-unlocked", File: "serf/serf.go", Func: "func (s *Serf) Leave(", Old: "\ts.state = SerfLeaving\n\ts.stateLock.Unlock()\n", New: "\ts.stateLock.Unlock()\n\ts.state = SerfLeaving\n", Expect: "R"},
@@ -149,6 +150,50 @@ func runC34(c *an.Ctx) {
 		}
 	}
 	if lv := sm(c, "R3", "Serf", "Leave"); lv != nil {
+		// "a join is refused if a leave had begun before it was called": Leave must publish the leaving
+		// state before it can wait for anything — Join decides on the state it reads, so a Leave that
+		// first queues on another lock (or blocks on a channel) lets a later Join through
+		var pub []ssa.Instruction
+		for _, st := range an.StoresTo(lv, ".state") {
+			if an.Path(st.Addr) == "&$0.state" && an.Path(st.Val) == cv(c, serf, "SerfLeaving") {
+				pub = append(pub, st)
+			}
+		}
+		c.Floor("R3", "stores of SerfLeaving in Leave", len(pub), 1)
+		isPub := func(in ssa.Instruction) bool {
+			for _, p := range pub {
+				if p == in {
+					return true
+				}
+			}
+			return false
+		}
+		isWait := func(in ssa.Instruction) bool {
+			if lock, op := an.LockOpOf(in); lock != "" && strings.HasPrefix(op, "+") {
+				return lock != "Serf.stateLock"
+			}
+			switch x := in.(type) {
+			case *ssa.Send, *ssa.Select:
+				return true
+			case *ssa.UnOp:
+				return x.Op == token.ARROW
+			}
+			return false
+		}
+		// a wait that comes before the store: reachable from entry without crossing the store, and the
+		// store still reachable after it
+		var wait ssa.Instruction
+		for _, w := range an.FindInstrs(lv, isWait) {
+			w := w
+			before := an.ReachFrom(lv, nil, &an.Cut{Instrs: isPub}, func(in ssa.Instruction) bool { return in == w }) != nil
+			if before && an.ReachFrom(lv, w, nil, isPub) != nil {
+				wait = w
+			}
+		}
+		c.Add(wait == nil, "R3", "Leave:publishes-leaving-first", lv, "Leave stores SerfLeaving before it acquires any lock other than stateLock or waits on a channel (a Join called after Leave began reads the new state)", "reach/cut from entry to the first wait, cut at the store")
+		if wait != nil {
+			c.Obs[len(c.Obs)-1].Desc += " — waits first at " + c.P.InstrPos(wait)
+		}
 		effs := an.CallsTo(lv, "(*Snapshotter).Leave", "(*Serf).handleNodeLeaveIntent", "(*Serf).broadcast", "memberlist.(*Memberlist).Leave")
 		c.Floor("R3", "effects of Leave", len(effs), 4)
 		for _, e := range effs {
@@ -219,7 +264,9 @@ func runC35(c *an.Ctx) {
 	selPath := an.Path(sel[0].(ssa.Value))
 	for _, s := range sends {
 		c.Add(an.GuardedBy(rr, s, an.Cmp{L: "$1", Op: "!=", R: "c:0"}), "R1", "relay:factor-nonzero", s, "no relay when the relay factor is zero", "edge dominance")
-		c.Add(an.GuardedBy(rr, s, an.Cmp{L: "len((*Serf).Members($0))", Op: ">=", R: "($1+c:1)"}), "R1", "relay:enough-members", s, "no relay when fewer than relayFactor+1 members are known", "edge dominance")
+		enough := an.GuardedBy(rr, s, an.Cmp{L: "len((*Serf).Members($0))", Op: ">=", R: "($1+c:1)"}) ||
+			an.GuardedBy(rr, s, an.Cmp{L: "len((*Serf).Members($0))", Op: ">", R: "$1"}) // the same bound without the addition
+		c.Add(enough, "R1", "relay:enough-members", s, "no relay when fewer than relayFactor+1 members are known", "edge dominance")
 		// destination = the selected member
 		dst := false
 		for _, st := range an.StoresTo(rr, ".Name") {
@@ -236,43 +283,80 @@ func runC35(c *an.Ctx) {
 		c.Add(dst && ip, "R1", "relay:destination", s, "each relayed copy is addressed to a selected member (its own address and name)", "field provenance")
 	}
 	a := an.CallOf(sel[0]).Args
-	c.Add(an.Path(a[0]) == "$1" && an.Path(a[1]) == "(*Serf).Members($0)" && strings.HasPrefix(an.Path(a[2]), "closure:"), "R1", "relay:selector-args", sel[0], "the selector is asked for relayFactor members out of the member list, with the eligibility filter (k="+an.Path(a[0])+")", "call arguments")
+	c.Add(an.Path(a[0]) == "$1" && an.Path(a[1]) == "(*Serf).Members($0)" && (strings.HasPrefix(an.Path(a[2]), "closure:") || closureOfArg(a[2])), "R1", "relay:selector-args", sel[0], "the selector is asked for relayFactor members out of the member list, with the eligibility filter (k="+an.Path(a[0])+")", "call arguments")
 
 	// R2 filter closure
-	if len(rr.AnonFuncs) != 1 {
+	// the filter is the closure handed to the selector: written in place, or made by a one-return factory
+	var filt *ssa.Function
+	var filtBind ssa.Value
+	closureOf := func(v ssa.Value) *ssa.MakeClosure {
+		if mc, ok := v.(*ssa.MakeClosure); ok {
+			return mc
+		}
+		if call, ok := v.(*ssa.Call); ok {
+			if g := an.StaticCallee(&call.Call); g != nil && an.Transparent(g) {
+				if rets := an.Returns(g); len(rets) == 1 {
+					if mc, ok := an.ResultValues(rets[0])[0].(*ssa.MakeClosure); ok {
+						return mc
+					}
+				}
+			}
+		}
+		return nil
+	}
+	if mc := closureOf(a[2]); mc != nil {
+		filt, _ = mc.Fn.(*ssa.Function)
+		if len(mc.Bindings) == 1 {
+			filtBind = mc.Bindings[0]
+		}
+	}
+	if filt == nil {
 		c.Anchor("R2", "eligibility closure of relayResponse")
 	} else {
-		f := rr.AnonFuncs[0]
+		f := filt
 		alive := cv(c, serf, "StatusAlive")
-		for _, r := range an.Returns(f) {
-			v := an.ResultValues(r)[0]
-			phi, ok := v.(*ssa.Phi)
-			if !ok {
-				c.Add(false, "R2", "filter:shape", r, "eligibility filter result is not the expected short-circuit disjunction", "")
-				continue
-			}
-			nonConst := 0
-			for i, e := range phi.Edges {
-				if an.IsConstBool(e, true) {
-					continue
+		// judged by ways: every way the filter can answer false (keep) establishes all three keep
+		// conditions, every way it can answer true (skip) establishes one of the three skip conditions —
+		// whatever the shape (one disjunction, a switch, early returns)
+		keep := []an.Cmp{{L: "$0.Status", Op: "==", R: alive}, {L: "$0.ProtocolMax", Op: ">=", R: "c:5"}, {L: "$0.Name", Op: "!=", R: "*^string"}}
+		skip := []an.Cmp{{L: "$0.Status", Op: "!=", R: alive}, {L: "$0.ProtocolMax", Op: "<", R: "c:5"}, {L: "$0.Name", Op: "==", R: "*^string"}}
+		has := func(facts []an.Cmp, w an.Cmp) bool {
+			for _, x := range facts {
+				if x.Implies(w) {
+					return true
 				}
-				nonConst++
-				p := an.Path(e)
-				okE := p == "($0.Name==*^string)" || p == "(*^string==$0.Name)"
-				pred := phi.Block().Preds[i]
-				last := pred.Instrs[len(pred.Instrs)-1]
-				okG := an.GuardedBy(f, last, an.Cmp{L: "$0.Status", Op: "==", R: alive}) && an.GuardedBy(f, last, an.Cmp{L: "$0.ProtocolMax", Op: ">=", R: "c:5"})
-				c.Add(okE && okG, "R2", "filter:keep-condition", r, "a member is kept (filter false) only if status is alive, ProtocolMax >= 5 and its name differs from the local name (operand "+p+")", "phi operands + edge dominance")
 			}
-			c.Add(nonConst == 1, "R2", "filter:single-keep-path", r, "exactly one path can keep a member", "phi operand enumeration")
+			return false
 		}
+		ways := boolWays(f)
+		c.Floor("R2", "ways the eligibility filter returns", len(ways), 2)
+		nKeep := 0
+		for _, w := range ways {
+			if !an.IsConstBool(w.v, true) { // can answer false
+				nKeep++
+				ff := append(append([]an.Cmp{}, w.facts...), an.CondFacts(w.v, false)...)
+				okK := has(ff, keep[0]) && has(ff, keep[1]) && has(ff, keep[2])
+				c.Add(okK, "R2", "filter:keep-condition", w.ret, "a member is kept (filter false) only if status is alive, ProtocolMax >= 5 and its name differs from the local name (way returning "+short(an.Path(w.v))+")", "ways of the filter + facts on each")
+			}
+			if !an.IsConstBool(w.v, false) { // can answer true
+				ft := append(append([]an.Cmp{}, w.facts...), an.CondFacts(w.v, true)...)
+				okS := has(ft, skip[0]) || has(ft, skip[1]) || has(ft, skip[2])
+				c.Add(okS, "R2", "filter:shape", w.ret, "a member is skipped (filter true) only when it is not alive, too old or the local node (way returning "+short(an.Path(w.v))+")", "ways of the filter + facts on each")
+			}
+		}
+		c.Add(nKeep >= 1, "R2", "filter:single-keep-path", f, "the filter can keep a member", "way enumeration")
 		// localName is the local member's name
 		okLN := false
-		for _, st := range an.FindInstrs(rr, func(in ssa.Instruction) bool { _, ok := in.(*ssa.Store); return ok }) {
-			s := st.(*ssa.Store)
-			if an.Path(s.Addr) == "&local:string" && an.Path(s.Val) == "(*Serf).LocalMember($0).Name" {
-				okLN = true
+		if al, isAl := filtBind.(*ssa.Alloc); isAl {
+			// the captured cell is written once, with the local member's name (possibly through the factory's parameter)
+			n := 0
+			for _, u := range *al.Referrers() {
+				if st, isSt := u.(*ssa.Store); isSt && st.Addr == ssa.Value(al) {
+					n++
+					okLN = an.Path(an.CallerValue(st.Val)) == "(*Serf).LocalMember($0).Name"
+				}
 			}
+			okLN = okLN && n == 1
 		}
 		c.Add(okLN, "R2", "filter:local-name", rr, "the name excluded is the local member's name", "store provenance")
 	}
@@ -306,7 +390,47 @@ func runC35(c *an.Ctx) {
 			exit := an.EdgesWhere(km, func(f an.Cmp) bool {
 				return strings.HasPrefix(f.L, "phi@") && f.Op == ">=" && f.R == "len("+res+")"
 			})
-			c.Add(an.Guarded(km, ap, exit), "R3", "selector:after-dedupe-scan", ap, "a member is appended only after the whole result was scanned for an equal name", "edge dominance by the scan's exit edge")
+			okScan := an.Guarded(km, ap, exit)
+			if !okScan {
+				// the scan through the library: slices.ContainsFunc(result, func(p) bool { return p.Name == candidate.Name }) == false
+				for _, in := range an.FindInstrs(km, func(in ssa.Instruction) bool { return an.CallOf(in) != nil }) {
+					call, isCall := in.(*ssa.Call)
+					if !isCall || len(call.Call.Args) != 2 {
+						continue
+					}
+					callee := an.StaticCallee(&call.Call)
+					if callee == nil || !strings.HasPrefix(an.CalleeName(callee), "slices.ContainsFunc") || an.Path(call.Call.Args[0]) != res {
+						continue
+					}
+					mc, isMC := call.Call.Args[1].(*ssa.MakeClosure)
+					if !isMC {
+						continue
+					}
+					cf, _ := mc.Fn.(*ssa.Function)
+					if cf == nil || len(cf.Params) != 1 || len(cf.Blocks) != 1 {
+						continue
+					}
+					all := len(an.Returns(cf)) == 1
+					for _, r := range an.Returns(cf) {
+						eq, isEq := an.ResultValues(r)[0].(*ssa.BinOp)
+						if !isEq || eq.Op != token.EQL {
+							all = false
+							continue
+						}
+						l, rr := an.Path(eq.X), an.Path(eq.Y)
+						names := strings.HasSuffix(l, ".Name") && strings.HasSuffix(rr, ".Name")
+						// one side is the closure's parameter (an already selected member), the other a captured value
+						onePar := strings.HasPrefix(l, "$0.") != strings.HasPrefix(rr, "$0.")
+						if !names || !onePar {
+							all = false
+						}
+					}
+					if all && an.GuardedBy(km, ap, an.Cmp{L: an.Path(call), Op: "==", R: "c:false"}) {
+						okScan = true
+					}
+				}
+			}
+			c.Add(okScan, "R3", "selector:after-dedupe-scan", ap, "a member is appended only after the whole result was scanned for an equal name", "edge dominance by the scan's exit edge")
 			// equal name ⇒ not appended in this iteration
 			for _, e := range an.EdgesWhere(km, func(f an.Cmp) bool {
 				return f.Op == "==" && strings.HasSuffix(f.L, ".Name") && strings.HasSuffix(f.R, ".Name") && strings.HasPrefix(f.L, cand)
@@ -543,4 +667,22 @@ func feeds(v ssa.Value, p *ssa.Phi) bool {
 		return false
 	}
 	return walk(p)
+}
+
+// closureOfArg: v is the result of a transparent one-return factory that returns a closure.
+func closureOfArg(v ssa.Value) bool {
+	call, ok := v.(*ssa.Call)
+	if !ok {
+		return false
+	}
+	g := an.StaticCallee(&call.Call)
+	if g == nil || !an.Transparent(g) {
+		return false
+	}
+	rets := an.Returns(g)
+	if len(rets) != 1 {
+		return false
+	}
+	_, isMC := an.ResultValues(rets[0])[0].(*ssa.MakeClosure)
+	return isMC
 }
